@@ -7,7 +7,11 @@
  (c) every CssDestination implements push_comment by storing or forwarding the comment;
  (d) the output format reaches every scope created during a compilation (a scope created with
      a constant format would decide comment dropping — and interpolation formatting — by the
-     wrong style).
+     wrong style);
+ (e) statement parsers never end on skipped loud comments: `ignore_comments` (the only skipper
+     that also consumes `/* */`) may separate the tokens of one statement, but the position a
+     statement parser returns is never the one obtained by skipping — a comment after a
+     statement belongs to the enclosing body, where it becomes an Item::Comment.
 """
 import json
 import os
@@ -41,6 +45,126 @@ def format_propagation(ctx, prog, rule="F4-format-propagation"):
             else:
                 ctx.fail(rule, key, f"{b.def_} creates a global scope with the format `{sym.show(term)[:80]}` instead of the compilation's output format: everything evaluated in that scope (comment dropping, interpolation) follows the wrong style / precision", where=b.where(bi))
     ctx.floor("new_global call sites", n, 10)
+
+
+LOUD_SKIPPERS = ("ignore_comments", "spacelike2")
+
+
+def _ends_with_skipper(n):
+    """does the parser expression n end by skipping loud comments?"""
+    n = A.strip(n)
+    e = n.get("e")
+    if e == "path":
+        return n["p"].rsplit("::", 1)[-1] in LOUD_SKIPPERS
+    if e == "tuple" and n["xs"]:
+        return _ends_with_skipper(n["xs"][-1])
+    if e == "call" and n["f"].get("e") == "path":
+        name = n["f"]["p"].rsplit("::", 1)[-1]
+        if name in ("terminated", "pair", "separated_pair", "delimited") and n["args"]:
+            return _ends_with_skipper(n["args"][-1])
+        if name in ("preceded",) and len(n["args"]) == 2:
+            return _ends_with_skipper(n["args"][1])
+        if name in ("map", "recognize", "cut", "context", "value") and n["args"]:
+            return _ends_with_skipper(n["args"][-1] if name in ("context", "value") else n["args"][0])
+        if name in LOUD_SKIPPERS:
+            return True
+    return False
+
+
+def _binders(p):
+    out = []
+
+    def rec(x):
+        if isinstance(x, list):
+            for y in x:
+                rec(y)
+        elif isinstance(x, dict):
+            if x.get("p") == "bind":
+                out.append(x["n"])
+            for k, v in x.items():
+                if isinstance(v, (dict, list)) and k not in ("init",):
+                    rec(v)
+    rec(p)
+    return out
+
+
+def statement_parsers_keep_trailing_comments(ctx, tree):
+    fns = [f for f in tree.fn_list if f["path"].startswith("parser::") and not f["path"].startswith("parser::css")
+           and (f["sig"].get("ret") or "").replace(" ", "") in ("PResult<Item>", "PResult<Vec<Item>>", "PResult<ItemBody>", "PResult<Option<Item>>")]
+    ctx.floor("statement parsers (PResult<Item> / <Vec<Item>> / <ItemBody>)", len(fns), 15)
+    for f in fns:
+        bad = []
+
+        def binding(st):
+            """(position name, parser expression) of `let (P, ..) = <parser>.parse(Q)?` / `<parser>(Q)?` / let-else Ok((P, ..))"""
+            pat = st["pat"]
+            if pat.get("p") == "tstruct" and pat["v"].rsplit("::", 1)[-1] == "Ok" and pat["xs"]:
+                pat = pat["xs"][0]
+            if pat.get("p") != "tuple" or not pat["xs"] or pat["xs"][0].get("p") != "bind":
+                return None
+            init = A.strip(st["init"])
+            if init.get("e") == "try":
+                init = A.strip(init["x"])
+            parser = None
+            if init.get("e") == "mcall" and init["m"] == "parse":
+                parser = init["recv"]
+            elif init.get("e") == "call":
+                parser = init["f"] if init["f"].get("e") == "path" and len(init["args"]) == 1 else init
+            return (pat["xs"][0]["n"], parser)
+
+        def visit(n, env):
+            """lexically scoped walk: env maps a position name to the parser that produced its current binding"""
+            if isinstance(n, list):
+                for x in n:
+                    visit(x, env)
+                return
+            if not isinstance(n, dict):
+                return
+            if n.get("e") == "block":
+                inner = dict(env)
+                for st in n["stmts"]:
+                    if st.get("s") == "let" and st.get("init") is not None:
+                        visit(st["init"], inner)
+                        if st.get("else") is not None:
+                            visit(st["else"], inner)
+                        b_ = binding(st)
+                        for nm in _binders(st["pat"]):
+                            inner.pop(nm, None)
+                        if b_ is not None and b_[1] is not None:
+                            inner[b_[0]] = b_[1]
+                    else:
+                        visit(st.get("x"), inner)
+                return
+            if n.get("e") == "call" and A.is_path(n["f"], "Ok") and len(n["args"]) == 1:
+                t = A.strip(n["args"][0])
+                if t.get("e") == "tuple" and t["xs"] and A.strip(t["xs"][0]).get("e") == "path":
+                    pos = A.strip(t["xs"][0])["p"]
+                    if pos in env and _ends_with_skipper(env[pos]):
+                        bad.append((pos, A.show(env[pos])[:60]))
+            if n.get("e") in ("closure",):
+                inner = dict(env)
+                for prm in n.get("params", []):
+                    for nm in _binders(prm):
+                        inner.pop(nm, None)
+                visit(n["body"], inner)
+                return
+            if n.get("e") == "match":
+                visit(n["on"], env)
+                for arm in n["arms"]:
+                    inner = dict(env)
+                    for nm in _binders(arm["pat"]):
+                        inner.pop(nm, None)
+                    visit(arm.get("guard"), inner)
+                    visit(arm["body"], inner)
+                return
+            for k, v in A.children(n):
+                visit(v, env)
+        visit(f["body"], {})
+        key = f["path"]
+        if bad:
+            ctx.fail("F7-trailing-comments", key, f"{f['path']} returns the position `{bad[0][0]}` obtained from `{bad[0][1]}`, i.e. after skipping loud comments that follow the statement: those comments never become Item::Comment and are lost from the output")
+        else:
+            ctx.ok("F7-trailing-comments", key, None)
 
 
 def run(ctx, F):
@@ -114,5 +238,6 @@ def run(ctx, F):
             ctx.fail("F5-push_comment", f"{ty}::push_comment stores or forwards", f"{ty}::push_comment can return without storing or forwarding the comment")
     # ---------------------------------------------------------------- (d)
     format_propagation(ctx, prog)
+    statement_parsers_keep_trailing_comments(ctx, tree)
     ctx.explanation = ("Data dependence of the comment-dropping condition on the comment value (MIR dominating tests of the push_comment call), inventory of Item::Comment constructors and of the parser they are fed by, "
                        "sibling table of the five push_comment implementations, provenance of the Format given to every new_global scope.")
